@@ -231,7 +231,7 @@ def write_text(d, spec, path, time_style="unixtime", missing_token="-999", row_o
 # NetCDF files
 # --------------------------------------------------------------------------------------
 def write_netcdf(d, spec, path, missing="fill", dtype="f4", time_dtype="f8", with_altitude=True, with_location=True,
-                 dim_order=None, nc_format="NETCDF4"):
+                 dim_order=None, nc_format="NETCDF4", with_lat=True, with_lon=True):
     """missing: 'fill' (masked/_FillValue), '-999', 'nan', 'big' (1e36)."""
     import netCDF4
     times = [spec["times"][i] for i in d["ti"]]
@@ -249,10 +249,12 @@ def write_netcdf(d, spec, path, missing="fill", dtype="f4", time_dtype="f8", wit
     if with_location:
         v = nc.createVariable("location", "i4", ("location",))
         v[:] = np.array([loc["id"] for loc in locs], int)
-    v = nc.createVariable("lat", "f4", ("location",))
-    v[:] = np.array([loc["lat"] for loc in locs], float)
-    v = nc.createVariable("lon", "f4", ("location",))
-    v[:] = np.array([loc["lon"] for loc in locs], float)
+    if with_lat:
+        v = nc.createVariable("lat", "f4", ("location",))
+        v[:] = np.array([loc["lat"] for loc in locs], float)
+    if with_lon:
+        v = nc.createVariable("lon", "f4", ("location",))
+        v[:] = np.array([loc["lon"] for loc in locs], float)
     if with_altitude:
         v = nc.createVariable("altitude", "f4", ("location",))
         v[:] = np.array([loc["elev"] for loc in locs], float)
